@@ -119,11 +119,35 @@ func materialSections(r *vlib.Run) {
 				c.Count("refract.ior_above_1", 1)
 			}
 		}
+		// the same material object shades other points between our draws (a path that bounces on
+		// several surfaces sharing one material): k draws for another (normal, direction) pair, from
+		// an independent stream, before each of ours. The distribution of OUR draws is a function
+		// of our arguments only.
+		interleave := 0
+		n2 := randNormal(rng)
+		fixed2, _ := randFixed(rng, n2)
+		gen2 := rand.New(rand.NewSource(rng.Int63()))
+		if rng.Intn(2) == 0 {
+			interleave = []int{1, 2, 3}[rng.Intn(3)]
+			c.Count("mat.cases_with_draws_for_another_shading_point_interleaved", 1)
+		}
+		between := func() {
+			for i := 0; i < interleave; i++ {
+				if i%2 == 0 {
+					lib.SampleSource(gen2, n2.C(), fixed2.C())
+				} else {
+					render3d.SampleDest(lib, gen2, n2.C(), fixed2.C())
+				}
+			}
+		}
 		if mode == 0 {
 			// source sampling: fixed = dest
 			dc := &dirCase{
 				typ: typ, sampleAPI: "SampleSource", densityAPI: "SourceDensity", tag: tag + ".source",
-				sample:   func(gen *rand.Rand) ref.V { return ref.From(lib.SampleSource(gen, n.C(), fixed.C())) },
+				sample: func(gen *rand.Rand) ref.V {
+					between()
+					return ref.From(lib.SampleSource(gen, n.C(), fixed.C()))
+				},
 				density:  func(w ref.V) float64 { return lib.SourceDensity(n.C(), w.C(), fixed.C()) },
 				info:     m.lobesOf(n, fixed, true),
 				hasDelta: m.hasDelta(),
@@ -135,7 +159,10 @@ func materialSections(r *vlib.Run) {
 			// methods for Refract/Joined, the reversed source sampler otherwise)
 			dc := &dirCase{
 				typ: "render3d", sampleAPI: "SampleDest(" + m.typeName() + ")", densityAPI: "DestDensity(" + m.typeName() + ")", tag: tag + ".dest",
-				sample:   func(gen *rand.Rand) ref.V { return ref.From(render3d.SampleDest(lib, gen, n.C(), fixed.C())) },
+				sample: func(gen *rand.Rand) ref.V {
+					between()
+					return ref.From(render3d.SampleDest(lib, gen, n.C(), fixed.C()))
+				},
 				density:  func(w ref.V) float64 { return render3d.DestDensity(lib, n.C(), fixed.C(), w.C()) },
 				info:     m.lobesOf(n, fixed, false),
 				hasDelta: m.hasDelta(),
